@@ -3,7 +3,7 @@ import PonyVerif.Model.RowLock
 /-
   line-protocol entry for the C35 model.
   request  {"op":"run", "n":N, "objs":[o..], "db":[[o,v]..], "cfg":[[immediate,checks]..] (per session id),
-            "dom":[d..] (per session id), "sched":[[sid,["read",o] | ["lock",o] | ["update",o,v] | ["commit"] | ["rollback"]]..]}
+            "dom":[d..] (per session id), "sched":[[sid,["read",o] | ["lock",o] | ["update",o,v] | ["commit"] | ["commitMid"] | ["rollback"]]..]}
   reply    {"res":[["ok",v|null] | ["blocked"] | ["busy"] | ["OptimisticCheckError"] | ["UnrepeatableReadError"] | ["dead"] ..],
             "db":[[o,v]..], "lost":b, "broken":b, "sessions":[{"status":..,"inTxn":b}..], "trace":[per step: committed rows]}
   request  {"op":"clause", "dialect":"sqlite"|"postgres"|"mysql"|"oracle", "nowait":b, "skip":b}   reply {"clause": text}
@@ -20,6 +20,7 @@ def parseAct (j : Json) : Except String Act := do
   | .arr #[.str "lock", o] => pure (.lockRead (← fromJson? o))
   | .arr #[.str "update", o, v] => pure (.update (← fromJson? o) (← fromJson? v))
   | .arr #[.str "commit"] => pure .commit
+  | .arr #[.str "commitMid"] => pure .commitMid
   | .arr #[.str "rollback"] => pure .rollback
   | _ => throw s!"bad action {j.compress}"
 
@@ -75,7 +76,7 @@ def handle (j : Json) : Except String Json := do
       let (rs, ds, σ) := runTrace n objs σ0 sched
       pure (Json.mkObj [
         ("res", .arr rs.toArray), ("trace", .arr ds.toArray), ("db", dbJson objs σ.db),
-        ("lost", .bool σ.lost), ("broken", .bool σ.broken),
+        ("lost", .bool σ.lost), ("broken", .bool σ.broken), ("unguarded", .bool σ.unguarded),
         ("sessions", .arr ((List.range cfgL.length).map (fun s =>
           Json.mkObj [("status", .str (statusName (σ.sess s).status)), ("inTxn", .bool (σ.sess s).inTxn)])).toArray)])
   | "clause" =>
